@@ -137,7 +137,9 @@ func ecsAnswer(kind string, req *dns.Msg) (resp *dns.Msg) {
 	resp.SetReply(req)
 	resp.RecursionAvailable = true
 	resp.AuthenticatedData = true
-	dep := name == "dep." || name == "dep2." || name == ecsFakeName
+	// "odd." echoes a non-zero scope even for a zero-prefix query.
+	odd := name == "odd."
+	dep := name == "dep." || name == "dep2." || name == ecsFakeName || odd
 	cl := dns.Class(q.Qclass).String()
 	sub := 0
 	if dep && name != ecsFakeName && sn != nil && sn.SourceNetmask > 0 {
@@ -196,6 +198,8 @@ func ecsAnswer(kind string, req *dns.Msg) (resp *dns.Msg) {
 			scope := uint8(0)
 			if dep && sn.SourceNetmask > 0 {
 				scope = sn.SourceNetmask
+			} else if odd {
+				scope = 24
 			}
 			ropt := resp.IsEdns0()
 			ropt.Option = append(ropt.Option, &dns.EDNS0_SUBNET{
